@@ -545,17 +545,21 @@ def p_responses(h, d):
         yield Msg("rewindable", None, None)
         yield Msg("stage", det)
         yield Msg("open_run", tag="resp")
+        yield Msg("null", None, "droppable")      # (a message filter may remove these: the plan then gets None)
         yield Msg("checkpoint")
         yield Msg("locate", lm)
         yield Msg("set", lm, 1.5, group="a")
+        yield Msg("null", None, "droppable")
         yield Msg("set", m1, 0.5, group="a")
         yield Msg("wait", None, group="a")
+        yield Msg("null", None, "droppable")
         yield Msg("locate", lm)
         tok = yield Msg("subscribe", None, cb, "event")
         yield Msg("trigger", det, group="t")
         yield Msg("wait", None, group="t")
         yield Msg("create", name="primary")
         yield Msg("read", det)
+        yield Msg("null", None, "droppable")
         yield Msg("read", lm)
         yield Msg("save")
         yield Msg("checkpoint")
